@@ -27,3 +27,9 @@ def all_in_at(s: Str, i: Int, a: Str):
     decreases(len(s))
     if i < len(s) - 1:
         all_in_at(s[:len(s) - 1], i, a)
+
+
+@ghost
+def tc_ok(type_id, value) -> Bool:
+    """the type checker of the compiled type `type_id` accepts `value` (ghost)"""
+    return True
